@@ -129,7 +129,12 @@ static void sc_init_only(int k) { lzma_stream s = LZMA_STREAM_INIT; s.allocator 
 static void sc_job(int k, size_t inchunk) { lzma_stream s = LZMA_STREAM_INIT; s.allocator = &FA; g_idx_out = NULL;
 	if (chk(k_init(&s, k), LZMA_OK, LZMA_OK, "init")) goto out;
 	k_run(&s, k, inchunk);
-out:	k_release(k); reuse_after(&s); lzma_index_end(g_idx_out, &FA); g_idx_out = NULL; }
+out:	k_release(k);
+	if (fa_failed && sc_status != 2) {	// the same coder kind again on the same handle, without lzma_end() and without further failures: must work like on a fresh handle
+		long a = fa_fail_a, b = fa_fail_b, f = fa_fail_from; int st = sc_status; fa_fail_a = fa_fail_b = fa_fail_from = -1; lzma_index_end(g_idx_out, &FA); g_idx_out = NULL;
+		lzma_ret r = k_init(&s, k); if (r != LZMA_OK) MISBEHAVE("%s: re-initialising the same coder after the failure returned %d", KN[k], r); else { sc_status = 0; int fsave = fa_failed; fa_failed = 0; k_run(&s, k, inchunk); fa_failed = fsave; if (sc_status != 2) sc_status = st; }
+		k_release(k); fa_fail_a = a; fa_fail_b = b; fa_fail_from = f; }
+	reuse_after(&s); lzma_index_end(g_idx_out, &FA); g_idx_out = NULL; }
 static void sc_history(const int *ks, int n, int code_between) { lzma_stream s = LZMA_STREAM_INIT; s.allocator = &FA; g_idx_out = NULL; lzma_index *prev_idx = NULL;
 	for (int i = 0; i < n; i++) {
 		lzma_index_end(prev_idx, &FA); prev_idx = NULL;
@@ -197,6 +202,16 @@ static void sc_filters(int variant) {
 		r = lzma_filter_flags_decode(&f2, &FA, fb, &ip, op); if (r != LZMA_OK && f2.options != NULL) MISBEHAVE("failed lzma_filter_flags_decode left options non-NULL");
 		if (!chk(r, LZMA_OK, LZMA_OK, "lzma_filter_flags_decode")) fa_free(NULL, f2.options);
 		lzma_filter f3 = { LZMA_FILTER_LZMA2, NULL }; unsigned char pr = 8; r = lzma_properties_decode(&f3, &FA, &pr, 1); if (!chk(r, LZMA_OK, LZMA_OK, "lzma_properties_decode")) fa_free(NULL, f3.options);
+	} else if (variant == 7) {	// single-call buffer functions: nothing may stay allocated, whatever fails
+		static unsigned char cb[4096], db[512]; size_t cp = 0, ip = 0, dp = 0;
+		lzma_ret r = lzma_raw_buffer_encode(ch_three, &FA, plain, 300, cb, &cp, sizeof cb);
+		if (!chk(r, LZMA_OK, LZMA_OK, "lzma_raw_buffer_encode")) { r = lzma_raw_buffer_decode(ch_three, &FA, cb, &ip, cp, db, &dp, sizeof db); if (!chk(r, LZMA_OK, LZMA_OK, "lzma_raw_buffer_decode") && (dp != 300 || memcmp(db, plain, 300))) MISBEHAVE("raw buffer round trip wrong"); }
+		cp = ip = dp = 0; r = lzma_stream_buffer_encode(ch_three, LZMA_CHECK_CRC64, &FA, plain, 300, cb, &cp, sizeof cb);
+		if (!chk(r, LZMA_OK, LZMA_OK, "lzma_stream_buffer_encode")) { uint64_t ml = UINT64_MAX; r = lzma_stream_buffer_decode(&ml, 0, &FA, cb, &ip, cp, db, &dp, sizeof db); if (!chk(r, LZMA_OK, LZMA_OK, "lzma_stream_buffer_decode") && (dp != 300 || memcmp(db, plain, 300))) MISBEHAVE("stream buffer round trip wrong"); }
+		cp = ip = dp = 0; lzma_block bl = { .version = 0, .check = LZMA_CHECK_CRC32, .filters = ch_three };
+		r = lzma_block_buffer_encode(&bl, &FA, plain, 300, cb, &cp, sizeof cb);
+		if (!chk(r, LZMA_OK, LZMA_OK, "lzma_block_buffer_encode")) { ip = bl.header_size; r = lzma_block_buffer_decode(&bl, &FA, cb, &ip, cp, db, &dp, sizeof db); if (!chk(r, LZMA_OK, LZMA_OK, "lzma_block_buffer_decode") && (dp != 300 || memcmp(db, plain, 300))) MISBEHAVE("block buffer round trip wrong"); }
+		cp = 0; r = lzma_easy_buffer_encode(1, LZMA_CHECK_SHA256, &FA, plain, 300, cb, &cp, sizeof cb); (void)chk(r, LZMA_OK, LZMA_OK, "lzma_easy_buffer_encode");
 	} else {	// lzma_filters_update: mid-stream after SYNC_FLUSH (raw/stream encoder) and between Blocks
 		lzma_stream s = LZMA_STREAM_INIT; s.allocator = &FA; lzma_options_lzma o2 = o_small; o2.lc = 0; o2.lp = 2; lzma_filter up[2] = { { LZMA_FILTER_LZMA2, &o2 }, { LZMA_VLI_UNKNOWN, NULL } };
 		lzma_options_lzma snap = o2;
@@ -277,7 +292,7 @@ static void build_table(int thorough) {
 	for (int k = 0; k < K_NKINDS; k++) { snprintf(nm, sizeof nm, "init:%s", KN[k]); add(nm, 1, k, 0, 0, 0); }
 	for (int k = 0; k < K_NKINDS; k++) { snprintf(nm, sizeof nm, "job:%s", KN[k]); add(nm, 2, k, 0, 0, 0); snprintf(nm, sizeof nm, "job-7byte-input:%s", KN[k]); add(nm, 2, k, 7, 0, 0); }
 	for (int v = 0; v < 5; v++) { snprintf(nm, sizeof nm, "index:variant%d(%s)", v, v == 0 ? "append3" : v == 1 ? "append600" : v == 2 ? "cat" : v == 3 ? "cat+dup" : "cat+dup+encode/decode"); add(nm, 3, v, 0, 0, 0); }
-	add("filters_copy", 4, 0, 0, 0, 0); add("str_to/from/list_filters", 4, 1, 0, 0, 0); add("block_header/filter_flags/properties decode", 4, 2, 0, 0, 0); add("filters_update after SYNC_FLUSH", 4, 3, 0, 0, 0); add("filters_update after FULL_FLUSH", 4, 4, 0, 0, 0); add("filters_update before any data", 4, 5, 0, 0, 0); add("two filters_update calls before any data", 4, 6, 0, 0, 0);
+	add("filters_copy", 4, 0, 0, 0, 0); add("str_to/from/list_filters", 4, 1, 0, 0, 0); add("block_header/filter_flags/properties decode", 4, 2, 0, 0, 0); add("filters_update after SYNC_FLUSH", 4, 3, 0, 0, 0); add("filters_update after FULL_FLUSH", 4, 4, 0, 0, 0); add("single-call raw/stream/block/easy buffer functions", 4, 7, 0, 0, 0); add("filters_update before any data", 4, 5, 0, 0, 0); add("two filters_update calls before any data", 4, 6, 0, 0, 0);
 	// histories on one handle without lzma_end: all ordered pairs (thorough: triples over a core set), three kinds of activity in between
 	for (int a = 0; a < K_NKINDS; a++) for (int b = 0; b < K_NKINDS; b++) for (int cb = 0; cb < 3; cb++) { snprintf(nm, sizeof nm, "history:%s->%s(%s)", KN[a], KN[b], cb == 0 ? "no coding" : cb == 1 ? "full job" : "partial job"); add(nm, 5, a, b, -1, cb); }
 	static const int core[] = { K_ALONE_DEC_A, K_ALONE_DEC_B, K_STREAM_DEC, K_RAW_DEC, K_RAW_DEC_BIG, K_EASY_ENC, K_INDEX_DEC, K_LZIP_DEC };
